@@ -1,6 +1,6 @@
 (** Executable entry point of the C05 model for the correspondence check.
 
-    case  (0 view view2) :
+    case  (0 view view2) | (1 view)  [streamed forms: observation (html in_order_eq out_of_order_eq)] :
       view ::= (0 bytes) text | (1) unit | (2 tag attrs kids) element | (3 tag attrs) void element
              | (4 views) tuple | (5 v) Some | (6) None | (7 v) Left | (8 v) Right | (9 views) Vec
              | (10 v) AnyView | (11 views) keyed | (12 dom) inert element | (13 n) integer primitive
@@ -148,6 +148,11 @@ Fixpoint dom_eqb (a b : dom) {struct a} : bool :=
 Definition run_C05 (c : sexp) : sexp :=
   let v := dec_view (nth_s 1 c) in
   let html := render v in
+  if Z.eqb (as_Z (nth_s 0 c)) 1 then
+    (* case (1 view): the streamed forms of a view without asynchronous parts are the synchronous
+       string (the model has only the synchronous printer: the two flags are the claim) *)
+    Lst [sbytes html; Num 1%Z; Num 1%Z]
+  else
   match parse html with
   | None => Lst [sbytes html; Lst [Num (-1)%Z]]
   | Some f =>
